@@ -45,9 +45,14 @@ def _enum(tree, name):
 
 def parse_struct(repo):
     """{struct: {"base", "size", "fields": [(name, offset, elem_size, is_string, count)]}}"""
+    return parse_struct_text(open(os.path.join(repo, "rig", "boot", "sark.struct"), "rb").read().decode())
+
+
+def parse_struct_text(text):
+    """the same for the text of any struct file (independent of rig's own parser)"""
     out, cur = {}, None
     size_of = {"c": 1, "C": 1, "v": 2, "V": 4}
-    for line in open(os.path.join(repo, "rig", "boot", "sark.struct"), "rb").read().decode().splitlines():
+    for line in text.splitlines():
         line = line.split("#")[0].strip()
         if not line:
             continue
